@@ -219,6 +219,19 @@ CHECKS['C11'] = dict(
     technique='symbolic execution of the Python source, exact normal forms modulo the defining equations of the linear solves + Z3 for path feasibility (bounded: one geometry)',
 )
 
+CHECKS['C10'] = dict(
+    level='model_checking',
+    text='One inductive step from an ARBITRARY coherent platform state (symbolic bottom and top pose): IK(top), IK(bottom), move by a '
+         'symbolic rigid motion, spinCustom by a symbolic angle, Jacobian / force queries and validate(donothing) leave the published '
+         'state coherent (joints = pose * plate-fixed coordinates, lengths = joint distances, relative transform = inv(bottom) * top, '
+         'FK joint tables follow a re-spin); a verdict True of validate(donothing) implies the enabled leg-limit / not-inverted / tilt '
+         'constraints and the plate-distance bound on every path. Corrective actions, both FK solvers inside histories, reverse FK, '
+         'randomPos and the joint-deflection constraint are NOT encoded: 300 (thorough 3000) random histories of length <= 25 over all 14 '
+         'operations and all 16 switch subsets on the real library (coherence to 1e-9, verdicts, purity of queries, normal return).',
+    design='5/C10',
+    technique='symbolic execution of the Python source + Z3 per path (one step from a symbolic coherent state); concrete history sampling for corrective paths',
+)
+
 NOT_APPLICABLE = {
 }
 
